@@ -2819,7 +2819,7 @@ def allclose_units(actual, desired, rtol=1e-7, atol=0, **kwargs):
     # to avoid spurious errors
     act = act.value
     des = des.value
-    rt = rt.value
+    rt = rt.to_value("dimensionless")
     at = at.value
 
     return np.allclose(act, des, rt, at, **kwargs)
